@@ -478,6 +478,75 @@ def w22_sqlite_bulk_partial_age_flush(tmp):
     return None
 
 
+def w23_bucket_get_end_in_fold(tmp):
+    """Bucket.get rounded the window end with datetime arithmetic, which returns fold=0: an end edge in the SECOND
+    reading of a repeated wall-clock hour moved to the first reading and the events in between were not returned."""
+    from datetime import tzinfo
+    from aw_core.models import Event
+    from aw_datastore import Datastore
+    from aw_datastore.storages import MemoryStorage
+
+    class FoldZone(tzinfo):
+        """+02:00 before the UTC instant `sw`, +01:00 from then on: the wall-clock hour after the switch occurs twice"""
+
+        def __init__(self, sw):
+            self.sw = sw.replace(tzinfo=None)
+            self.before, self.after = timedelta(hours=2), timedelta(hours=1)
+
+        def utcoffset(self, d):
+            w = d.replace(tzinfo=None)
+            is_before, is_after = w - self.before < self.sw, w - self.after >= self.sw
+            if is_before and is_after:
+                return self.after if d.fold else self.before
+            return self.before if is_before else self.after
+
+        def dst(self, d):
+            return timedelta(0)
+
+        def tzname(self, d):
+            return "fold"
+
+        def fromutc(self, d):
+            u = d.replace(tzinfo=None)
+            if u < self.sw:
+                return (u + self.before).replace(tzinfo=self)
+            w = u + self.after
+            return w.replace(tzinfo=self, fold=1 if w - self.before < self.sw else 0)
+
+    sw = datetime(2021, 10, 31, 1, 0, tzinfo=UTC)           # Europe/Berlin left summer time at this instant
+    zones = [("FoldZone", FoldZone(sw))]
+    try:
+        from zoneinfo import ZoneInfo
+        zones.append(("Europe/Berlin", ZoneInfo("Europe/Berlin")))
+    except Exception:  # noqa: BLE001 -- no tz database on this machine: the synthetic zone carries the witness
+        pass
+    t0 = sw - timedelta(hours=1)                            # 00:00Z
+    ds = Datastore(MemoryStorage, testing=True)
+    ds.create_bucket("b", "t", "c", "h", created=T0)
+    b = ds["b"]
+    b.insert([Event(timestamp=t0 + timedelta(minutes=15 * k), duration=timedelta(minutes=1), data={"k": k})
+              for k in range(8)])
+    end_utc = sw + timedelta(minutes=30)                    # 01:30Z = 02:30 local, second reading
+    want = [e.data["k"] for e in b.get(-1, t0, end_utc)]
+    if want != [6, 5, 4, 3, 2, 1, 0]:
+        return f"the window [00:00Z, 01:30Z] written in UTC returns events {want}"
+    for name, z in zones:
+        end = datetime(2021, 10, 31, 2, 30, tzinfo=z, fold=1)
+        if end.utcoffset() != timedelta(hours=1) or end.astimezone(UTC) != end_utc:   # (== across zones is always False in a fold, PEP 495)
+            return f"{name}: 02:30 fold=1 is not 01:30Z on this machine ({end.utcoffset()})"
+        got = [e.data["k"] for e in b.get(-1, t0, end)]
+        n = b.get_eventcount(t0, end)
+        if got != want or n != len(want):
+            return (f"Bucket.get(-1, 00:00Z, 02:30 fold=1 {name}) returns events {got}, the same instants written in UTC "
+                    f"return {want} (get_eventcount says {n})")
+        # the edge exactly on the switch (02:00 fold=1 = 01:00Z) and a start edge in the fold
+        st = datetime(2021, 10, 31, 2, 15, tzinfo=z, fold=1)        # 01:15Z
+        got = [e.data["k"] for e in b.get(-1, st, end)]
+        if got != [6, 5]:
+            return f"Bucket.get(-1, 02:15 fold=1, 02:30 fold=1 {name}) returns events {got}, expected [6, 5]"
+    return None
+
+
 ALL = [v for k, v in sorted(globals().items()) if k.startswith("w") and k[1:3].isdigit()]
 
 if __name__ == "__main__":
